@@ -174,6 +174,8 @@ def main(argv=None):
     violations = []
     reach = {}
     cut = 0
+    slow = 0
+    slow_cases = []
     solver = {}
     for r in results:
         cases += r["cases"]
@@ -195,6 +197,9 @@ def main(argv=None):
         inconcl += r["inconclusive"]
         if "cut_by_watchdog_after_cases" in r:
             cut += 1
+        slow = max(slow, r.get("slowest_case_s", 0))
+        if "slowest_case" in r and len(slow_cases) < 2:
+            slow_cases.append({"seconds": r["slowest_case_s"], "hashseed": r["hashseed"], "case": r["slowest_case"]})
         for v in r["violations"]:
             v = dict(v)
             v["hashseed"] = r["hashseed"]
@@ -230,6 +235,9 @@ def main(argv=None):
         inconcl.append(f"{len(errors)} harness errors, first: {errors[0][:1500]}")
     if cases == 0:
         inconcl.append("no case was executed")
+    nto = counters.get("case_timeouts", 0)
+    if nto > max(3, cases // 200):
+        inconcl.append(f"{nto} of {cases} cases hit the per-case watchdog")
     min_cases = budget.get("min_cases", 1)
     if cases < min_cases:
         inconcl.append(f"only {cases} cases executed (< {min_cases}); watchdog cut {cut} workers")
@@ -300,6 +308,8 @@ def main(argv=None):
             "violations_total_including_known": total_viol,
             "inconclusive_reasons": inconcl,
             "workers_cut_by_watchdog": cut,
+            "slowest_case_s": slow,
+            "slow_cases": slow_cases,
             "repo": repo,
             "repo_head": head,
             "repo_diff_hash": diffh,
